@@ -112,6 +112,21 @@ theorem upLoop_fuel (M : ℝ → W × ℝ × ℝ) (target tol : ℝ) :
         rw [upLoop_down M target tol n lo hi hw he]; exact this
     · rw [upLoop_stop M target tol n lo hi hw]
 
+/-- the loop reports one of its own two tags -/
+theorem upLoop_branch (M : ℝ → W × ℝ × ℝ) (target tol : ℝ) :
+    ∀ (n : Nat) (lo hi : ℝ), (upLoop M target tol n lo hi).branch = Branch.upLoop ∨
+      (upLoop M target tol n lo hi).branch = Branch.upFuel := by
+  intro n
+  induction n with
+  | zero => intro lo hi; by_cases hw : tol < hi - lo <;> simp [upLoop, hw]
+  | succ n ih =>
+    intro lo hi
+    by_cases hw : tol < hi - lo
+    · by_cases he : target ≤ (M (mid hi lo)).2.1
+      · rw [upLoop_up M target tol n lo hi hw he]; exact ih _ _
+      · rw [upLoop_down M target tol n lo hi hw he]; exact ih _ _
+    · rw [upLoop_stop M target tol n lo hi hw]; left; rfl
+
 /-- leaving through the `while` condition means the final interval is no wider than the tolerance -/
 theorem upLoop_width_le (M : ℝ → W × ℝ × ℝ) (target tol : ℝ) :
     ∀ (n : Nat) (lo hi : ℝ), (upLoop M target tol n lo hi).branch = Branch.upLoop →
@@ -679,6 +694,78 @@ theorem C05_schedule_resume {σ : Type} (c : Cfg ℝ) (env : σ → Oracles ℝ 
       (betas c env emp next n s0 p0)[k+1]? = some b → a ≤ b) :=
   sched_mono c env emp next hne n s0 p0 h0 hp
 
+/-! ### the ESS-limited temperature is tight, and for a monotone ESS it is the statement's supremum -/
+
+/-- second loop invariant of `_find_beta_upper_limit`: the ESS at `beta_high` stays below the target -/
+theorem upLoop_hi_below (M : ℝ → W × ℝ × ℝ) (target tol : ℝ) :
+    ∀ (n : Nat) (lo hi : ℝ), (M hi).2.1 < target → (M (upLoop M target tol n lo hi).hi).2.1 < target := by
+  intro n
+  induction n with
+  | zero => intro lo hi h; simpa [upLoop] using h
+  | succ n ih =>
+    intro lo hi h
+    by_cases hw : tol < hi - lo
+    · by_cases he : target ≤ (M (mid hi lo)).2.1
+      · rw [upLoop_up M target tol n lo hi hw he]; exact ih _ _ h
+      · rw [upLoop_down M target tol n lo hi hw he]; exact ih _ _ (not_le.mp he)
+    · rw [upLoop_stop M target tol n lo hi hw]; exact h
+
+/-- The ESS-limited temperature is not slack: unless it is 1, there is a temperature at most `BETA_TOLERANCE`
+    above it at which the ESS is BELOW the target (for `upStay` that temperature is `β_prev` itself).
+    Needs only that the loop was not stopped by the model's fuel (`C05_upper_fuel`). -/
+theorem C05_upper_tight (M : ℝ → W × ℝ × ℝ) (target tol : ℝ) (fuel : Nat) (prev : ℝ) (h1 : prev ≤ 1)
+    (htol : 0 ≤ tol) (hf : (upperLimit M target tol fuel prev).branch ≠ Branch.upFuel) :
+    (upperLimit M target tol fuel prev).beta = 1 ∨
+    ∃ b, (upperLimit M target tol fuel prev).beta ≤ b ∧ b ≤ (upperLimit M target tol fuel prev).beta + tol ∧
+      b ≤ 1 ∧ (M b).2.1 < target := by
+  rcases upperLimit_cases M target tol fuel prev with ⟨h, e⟩ | ⟨_, _, e⟩ | ⟨_, h, e⟩
+  · right; rw [e]; exact ⟨prev, le_refl _, by simp only; linarith, h1, h⟩
+  · left; rw [e]
+  · right
+    rw [e] at hf ⊢
+    simp only at hf ⊢
+    obtain ⟨_, a2, a3, _, _⟩ := upLoop_spec M target tol fuel prev 1 h1
+    have hb : (upLoop M target tol fuel prev 1).branch = Branch.upLoop := by
+      rcases upLoop_branch M target tol fuel prev 1 with hb | hb
+      · exact hb
+      · exact absurd hb hf
+    have hw := upLoop_width_le M target tol fuel prev 1 hb
+    exact ⟨(upLoop M target tol fuel prev 1).hi, a2, by linarith, a3, upLoop_hi_below M target tol fuel prev 1 h⟩
+
+/-- ESS non-increasing in β on `[β_prev, 1]` (the situation the algorithm is designed for) -/
+def EssAntitone (M : ℝ → W × ℝ × ℝ) (prev : ℝ) : Prop :=
+  ∀ a b, prev ≤ a → a ≤ b → b ≤ 1 → (M b).2.1 ≤ (M a).2.1
+
+/-- For a non-increasing ESS the upper limit is the statement's "largest temperature with ESS ≥ target" up to
+    `BETA_TOLERANCE`: the ESS is ≥ target on all of `[β_prev, β_upper]` (if the limit moved at all) and < target
+    everywhere from `β_upper + BETA_TOLERANCE` on. -/
+theorem C05_upper_antitone (M : ℝ → W × ℝ × ℝ) (target tol : ℝ) (fuel : Nat) (prev : ℝ) (h1 : prev ≤ 1)
+    (htol : 0 ≤ tol) (hf : (upperLimit M target tol fuel prev).branch ≠ Branch.upFuel)
+    (hmono : EssAntitone M prev) :
+    ((upperLimit M target tol fuel prev).beta ≠ prev →
+      ∀ b, prev ≤ b → b ≤ (upperLimit M target tol fuel prev).beta → target ≤ (M b).2.1) ∧
+    (∀ b, (upperLimit M target tol fuel prev).beta + tol ≤ b → b ≤ 1 →
+      (upperLimit M target tol fuel prev).beta = 1 ∨ (M b).2.1 < target) := by
+  obtain ⟨u1, u2⟩ := C05_upper_in_range M target tol fuel prev h1
+  constructor
+  · intro hne b hb1 hb2
+    have := C05_upper_ess M target tol fuel prev h1 hne
+    exact le_trans this (hmono b _ hb1 hb2 u2)
+  · intro b hb1 hb2
+    rcases C05_upper_tight M target tol fuel prev h1 htol hf with h | ⟨x, x1, x2, x3, x4⟩
+    · left; exact h
+    · right; exact lt_of_le_of_lt (hmono x b (le_trans u1 x1) (le_trans x2 hb1) hb2) x4
+
+/-- volume-variation mode with a non-increasing ESS: an advance always lands on a temperature whose ESS is at
+    least the target (because it lands in `[β_prev, β_upper]`) -/
+theorem C05_dyn_ess_antitone (M : ℝ → W × ℝ × ℝ) (Z : ℝ → ℝ) (fin : ℝ → Bool) (target vv tolE tolB : ℝ)
+    (fuel : Nat) (prev : ℝ) (h1 : prev ≤ 1) (hmono : EssAntitone M prev)
+    (hadv : (runDyn M Z fin target vv tolE tolB fuel prev).beta ≠ prev) :
+    target ≤ (M (runDyn M Z fin target vv tolE tolB fuel prev).beta).2.1 := by
+  obtain ⟨d1, d2, d3⟩ := C05_dyn_mode M Z fin target vv tolE tolB fuel prev h1
+  have hu := C05_dyn_upper_ess M Z fin target vv tolE tolB fuel prev h1 hadv
+  exact le_trans hu (hmono _ _ d1 d2 d3)
+
 /-! ### non-vacuity: a concrete oracle  (ESS(β) = 100·(1 − β), metric(β) = β, target 40) -/
 
 noncomputable def Mex : ℝ → Unit × ℝ × ℝ := fun β => ((), 100 * (1 - β), β)
@@ -728,5 +815,21 @@ example : betas (σ := Nat) ⟨2, 20, none, 1/100, 1/4, 3⟩ (fun _ => ⟨Mex, i
   norm_num [betas, schedule, run, Cfg.target, runEss, finalize, upperLimit, upLoop, Mex, mid]
 example := C05_schedule (σ := Nat) ⟨2, 20, none, 1/100, 1/4, 3⟩ (fun _ => ⟨Mex, id, fun _ => true⟩)
     (fun s => s == 0) (fun s _ => s + 1) 0 0 (by simp) (by simp) 3
+
+-- tightness / monotone characterisation on the same oracle (it is non-increasing): the limit 1/2 found with
+-- tolerance 1/4 has ESS 50 ≥ 40, and ESS(3/4) = 25 < 40 one tolerance above it
+example : EssAntitone Mex 0 := by
+  intro a b _ hab _; simp only [Mex]; linarith
+example : ∀ b, (0 : ℝ) ≤ b → b ≤ 1/2 → (40 : ℝ) ≤ (Mex b).2.1 := by
+  have h := (C05_upper_antitone Mex 40 (1/4) 3 0 (by norm_num) (by norm_num)
+    (by norm_num [upperLimit, upLoop, Mex, mid]; decide) (by intro a b _ hab _; simp only [Mex]; linarith)).1
+    (by norm_num [upperLimit, upLoop, Mex, mid])
+  have e : (upperLimit Mex 40 (1/4) 3 0).beta = 1/2 := by norm_num [upperLimit, upLoop, Mex, mid]
+  rw [e] at h; exact h
+example : (40 : ℝ) ≤ (Mex (runDyn Mex id (fun _ => true) 40 (3/10) (1/100) (1/4) 3 0).beta).2.1 :=
+  C05_dyn_ess_antitone Mex id (fun _ => true) 40 (3/10) (1/100) (1/4) 3 0 (by norm_num)
+    (by intro a b _ hab _; simp only [Mex]; linarith)
+    (by norm_num [runDyn, bisect, bisStop, bisVal, bisRaise, eqv, finalize, upperLimit, upLoop, Mex, mid,
+      ScReal.abs_def])
 
 end Props.C05
